@@ -173,7 +173,12 @@ pub fn run_case(c: &Case) -> Result<Vec<(String, String, String)>, String> {
                             None => out.push(("key-missing-on-joiner".to_string(), format!("key missing ({})", provenance(c, db, k)), format!("{}.{}={:?} (v{}) on the primary, absent on the joiner", db, k, v, ver))),
                             Some((jv, jver)) => {
                                 if jv != v {
-                                    let kind = if v.contains(' ') { "value with spaces" } else if v.is_empty() { "empty value" } else if v.chars().next().map(|c| c.is_ascii_digit()).unwrap_or(false) { "numeric-first value" } else { "plain value" };
+                                    let base_kind = if v.contains(' ') { "value with spaces" } else if v.is_empty() { "empty value" } else if v.chars().next().map(|c| c.is_ascii_digit()).unwrap_or(false) { "numeric-first value" } else { "plain value" };
+                                    // the known format defect eats exactly the first word (the parser takes it for
+                                    // the version): anything else that happens to a value is a difference of its own
+                                    let minus_first_word = v.split_once(' ').map(|x| x.1.to_string()).unwrap_or_default();
+                                    let kind_s = if v.contains(' ') && *jv != minus_first_word { "multi-word value that lost more than its first word".to_string() } else { base_kind.to_string() };
+                                    let kind = kind_s.as_str();
                                     out.push(("value-differs-on-joiner".to_string(), format!("{} ({})", kind, provenance(c, db, k)), format!("{}.{}: {:?} on the primary, {:?} on the joiner", db, k, v, jv)));
                                 } else if jver != ver {
                                     out.push(("version-differs-on-joiner".to_string(), format!("joiner {} by {}", if jver > ver { "ahead" } else { "behind" }, (jver - ver).abs()), format!("{}.{}={:?}: version {} on the primary, {} on the joiner", db, k, v, ver, jver)));
@@ -205,7 +210,7 @@ pub fn run_case(c: &Case) -> Result<Vec<(String, String, String)>, String> {
 }
 
 pub fn cases(quick: bool) -> Vec<Case> {
-    let vals: Vec<&'static str> = vec!["v", "two words", "7 up", ""];
+    let vals: Vec<&'static str> = vec!["v", "two words", "7 up", "", "x  two   blanks "];
     let mut histories: Vec<Vec<Op>> = vec![];
     // every history starts by creating the database; then 1..n more operations
     let mut letters: Vec<Op> = vec![];
